@@ -369,6 +369,131 @@ pub fn execute(prog: &Prog, frag: &Frag, jitter: Option<Rng>, hr: Rng, server_cl
     })
 }
 
+/// Heartbeats are on (1 s), the server stays lively, and the transport stalls in the
+/// middle of a frame for longer than the heartbeat interval, once or twice, while a
+/// channel publishes. Whatever the client decides to do about its own heartbeat in that
+/// situation, the stream must stay a sequence of whole frames with the channel's frames in
+/// the order issued.
+fn heartbeat_stall(r: &mut Rng, res: &mut CaseResult) {
+    let mut reflex = Reflex::default();
+    reflex.tune = (2047, 131072, 1);
+    let (conn, h) = session::open_with(reflex, session::default_opts().heartbeat(1), ConnectionTuning::default(), |_| {});
+    let mut conn = match conn {
+        Ok(c) => c,
+        Err(e) => {
+            res.inconclusive(format!("handshake: {}", ek(&e)));
+            return;
+        }
+    };
+    let stop = Arc::new(AtomicBool::new(false));
+    let lively = {
+        let (h2, stop2) = (h.clone(), stop.clone());
+        run::spawn("server-heartbeats", move || {
+            while !stop2.load(Ordering::SeqCst) {
+                h2.inject(wire::enc_raw(wire::T_HEARTBEAT, 0, &[]));
+                std::thread::sleep(Duration::from_millis(300));
+            }
+        })
+    };
+    let ch = match conn.open_channel(None) {
+        Ok(c) => c,
+        Err(e) => {
+            res.inconclusive(format!("open_channel: {}", ek(&e)));
+            return;
+        }
+    };
+    let id = ch.channel_id();
+    // the channel's owner runs on its own thread so that a stream the broker can no longer
+    // parse (no replies) shows up as a diagnosis below, not as a hung case
+    let (h2, mut r2) = (h.clone(), Rng::new(r.next()));
+    let owner = run::spawn("owner", move || {
+        let (h, r) = (h2, &mut r2);
+        let mut errs: Vec<String> = Vec::new();
+        let mut stalls = 0u64;
+        let mut expected: Vec<Item> = vec![m("Channel.Open", "")];
+        let mut n = 0;
+        for stall in 0..r.usize(1, 2) {
+            // the transport accepts a little more, then nothing
+            let take = r.usize(1, 30000);
+            h.with(|st| st.budget = take);
+            let t0 = std::time::Instant::now();
+            let hold = Duration::from_millis(r.range(1150, 2300));
+            for _ in 0..r.usize(2, 5) {
+                let op = Op::Publish { id: format!("hb{}-{}", stall, n), len: *r.pick(&[0usize, 10, 5000, 20000, 140000]) };
+                n += 1;
+                expected.extend(ops::expect_items(&op));
+                if let Err(e) = ops::exec(&ch, &op) {
+                    errs.push(format!("publish during a stall: {}", ek(&e)));
+                }
+            }
+            let left = hold.checked_sub(t0.elapsed()).unwrap_or_default();
+            std::thread::sleep(left);
+            stalls += 1;
+            h.grant(usize::MAX);
+            // a barrier: everything queued has been written
+            expected.push(m("Basic.Qos", &(stall + 1).to_string()));
+            if let Err(e) = ch.qos(0, (stall + 1) as u16, false) {
+                errs.push(format!("call after the stall: {}", ek(&e)));
+            }
+        }
+        expected.push(m("Channel.Close", ""));
+        if let Err(e) = ch.close() {
+            errs.push(format!("Channel::close: {}", ek(&e)));
+        }
+        (expected, n, stalls, errs)
+    });
+    let (expected, n, finished) = match owner.join(W + Duration::from_secs(6)) {
+        J::Done((expected, n, stalls, errs)) => {
+            res.obs("stalls_longer_than_the_heartbeat_interval", stalls);
+            for e in errs {
+                res.violate("op_failed", e);
+            }
+            (expected, n, true)
+        }
+        _ => (Vec::new(), 0, false),
+    };
+    stop.store(true, Ordering::SeqCst);
+    let _ = lively.join(Duration::from_secs(2));
+    if finished {
+        let close = run::spawn("close", move || conn.close());
+        match close.join(W) {
+            J::Done(Ok(())) => {}
+            J::Done(Err(e)) => res.violate("op_failed", format!("Connection::close: {}", ek(&e))),
+            _ => res.violate("no_progress", "Connection::close still blocked".to_string()),
+        }
+    } else {
+        std::mem::forget(conn);
+    }
+    let bytes = h.out_bytes();
+    let sp = wire::parse_client_stream(&bytes);
+    res.obs("bytes_checked", bytes.len() as u64);
+    res.obs("frames_checked", sp.frames.len() as u64);
+    res.obs("client_heartbeats_in_stream", sp.frames.iter().filter(|f| f.ty == wire::T_HEARTBEAT).count() as u64);
+    if !sp.header_ok {
+        res.violate("bad_protocol_header", format!("{:?}", sp.error));
+    } else if let Some(e) = &sp.error {
+        res.violate("malformed_outbound_frame", e.clone());
+    } else if sp.trailing != 0 && finished {
+        res.violate("torn_frame_at_end", format!("{} trailing bytes", sp.trailing));
+    } else if finished {
+        let got = ops::wire_items(&sp.frames, id);
+        if got != expected {
+            let first = got.iter().zip(expected.iter()).position(|(a, b)| a != b).unwrap_or(got.len().min(expected.len()));
+            res.violate("per_channel_sequence", format!("channel {}: wire has {} items, issued {}; first difference at {}: wire {:?} vs issued {:?}", id, got.len(), expected.len(), first, got.get(first), expected.get(first)));
+        }
+        res.obs("channel_sequences_compared", 1);
+    }
+    if !finished {
+        // (a malformed stream, reported above, explains it: the broker stopped answering)
+        res.violate("no_progress", "the channel's owner is still blocked long after the transport was released".to_string());
+    }
+    for p in run::io_panics(&run::take_panics()) {
+        res.violate("io_thread_panic", format!("{} at {}", p.msg, p.loc));
+    }
+    res.sig = crate::rng::fnv_str(&format!("hbstall{}{}", n, bytes.len()));
+    res.sample = Some(json!({"heartbeat": 1, "publishes": n, "scenario": "transport stalled inside a frame for longer than the heartbeat interval"}));
+}
+
 /// The byte-stream oracle: independent envelope parse of everything the
 /// transport accepted, then per-channel comparison with what was issued.
 pub fn check_stream(out: &RunOut, frame_max: u32, res: &mut CaseResult) {
@@ -758,6 +883,18 @@ pub fn run(rc: &mut RunCtx) {
             if i % 16 == 0 {
                 res.sample = Some(json!({"transport": "loopback TCP, slow reader", "threads": prog.threads.len(), "frame_max": prog.frame_max}));
             }
+            rc.end(res);
+        }
+    }
+    // (3b) heartbeats negotiated, transport stalled inside a frame for longer than the
+    //      heartbeat interval (wall clock: a few cases only)
+    for i in 0..rc.n(4, 32) {
+        let id = format!("hb-stall:{}", i);
+        if rc.mine(&id) {
+            rc.begin(&id);
+            let mut res = CaseResult::new(id);
+            let mut r = Rng::for_case(seed, 1, 9_000_000 + i);
+            heartbeat_stall(&mut r, &mut res);
             rc.end(res);
         }
     }
